@@ -3,6 +3,7 @@ package props
 import (
 	"bytes"
 	"fmt"
+	"reflect"
 	"runtime"
 	"strings"
 	"sync"
@@ -177,6 +178,24 @@ func checkWire(codec p9p.Codec, tag p9p.Tag, m p9p.Message) (sig, msg string) {
 	if !EqFcall(&back, fc) {
 		return "C01:roundtrip:" + kind, fmt.Sprintf("decode(encode(m)) != m: sent %s got %s", Brief(fc), Brief(back))
 	}
+	// the same message handed over by pointer (both T and *T implement
+	// Message; handlers do return pointers): same bytes, same Size
+	if pm, ok := ptrForm(m); ok {
+		pfc := &p9p.Fcall{Type: m.Type(), Tag: tag, Message: pm}
+		var pgot []byte
+		var perr error
+		if p := catch(func() { pgot, perr = codec.Marshal(pfc) }); p != "" {
+			return "C01:marshal-panic:*" + kind[strings.Index(kind, ".")+1:], p
+		}
+		if perr == nil {
+			if !bytes.Equal(pgot, want) {
+				return "C01:layout:pointer:" + kind, fmt.Sprintf("encoding of the pointer form of %s differs from the 9P2000 layout at byte %d", Brief(fc), firstDiff(pgot, want))
+			}
+			if sz := codec.Size(pfc); sz != len(pgot) {
+				return "C01:size:pointer:" + kind, fmt.Sprintf("Size of the pointer form of %s is %d but %d bytes were produced", Brief(fc), sz, len(pgot))
+			}
+		}
+	}
 	ref, trailing, err := refcodec.Decode(got)
 	if err != nil || trailing != 0 || !EqFcall(ref, fc) {
 		return "C01:peer-decode:" + kind, fmt.Sprintf("an independent 9P2000 decoder reads %s as %s (err=%v trailing=%d)", Brief(fc), Brief(ref), err, trailing)
@@ -184,6 +203,18 @@ func checkWire(codec p9p.Codec, tag p9p.Tag, m p9p.Message) (sig, msg string) {
 	// decode direction against an independent peer: bytes produced by the
 	// reference encoder must decode to the message
 	return "", ""
+}
+
+// ptrForm returns m as a pointer to a copy of itself, if that is a Message too.
+func ptrForm(m p9p.Message) (p9p.Message, bool) {
+	t := reflect.TypeOf(m)
+	if t.Kind() == reflect.Ptr {
+		return nil, false
+	}
+	pv := reflect.New(t)
+	pv.Elem().Set(reflect.ValueOf(m))
+	pm, ok := pv.Interface().(p9p.Message)
+	return pm, ok
 }
 
 func firstDiff(a, b []byte) int {
